@@ -41,6 +41,12 @@ type SpecFn struct {
 	// integer or bool become extra inputs of the translated function (named after the call expression): the callee is
 	// not translated, its result is a free input of its declared type
 	Oracles []string `json:"oracles,omitempty"`
+	// An entry ".Method" makes every call of a method of that name an oracle (any receiver, any arguments; the
+	// arguments are not translated), an entry "Func" a call of the same-package function of that name; such calls may
+	// return several values (`v, err := oracle(..)`): one input per result, named <name>_<k-th call>_<result index>.
+	// OutFields ("block.TotalPlasma:u64"): fields written through a pointer parameter; their final values are appended
+	// to every returned tuple (the initial value is an input).
+	OutFields []string `json:"out_fields,omitempty"`
 }
 type Spec struct {
 	Functions []SpecFn `json:"functions"`
@@ -76,6 +82,9 @@ type ctx struct {
 	opaqueK []string // kinds of the opaque callee's arguments (result type of the translated function)
 	loopVal map[string]string           // loop variables of loops being unrolled -> current constant value
 	iters   map[*ast.EmptyStmt]*iterInfo // continuation markers of unrolled loops
+	oracleN map[string]int              // per oracle name: calls seen so far
+	opaqueL map[string]bool             // locals of unsupported type (usable only as arguments of oracle calls)
+	outF    []string                    // Coq names of the out fields
 }
 
 // one unrolled `for i := c0; i <cmp> c1; i++/i--` loop: after the body of iteration idx comes the marker, which starts
@@ -415,6 +424,68 @@ func (c *ctx) rootParam(e ast.Expr) bool {
 	return false
 }
 
+
+// oracleName: "" unless x is a call of a new-style oracle (".Method" or same-package "Func") of the spec
+func (c *ctx) oracleName(x *ast.CallExpr) string {
+	switch f := x.Fun.(type) {
+	case *ast.Ident:
+		for _, o := range c.spec.Oracles {
+			if o == f.Name {
+				return f.Name
+			}
+		}
+	case *ast.SelectorExpr:
+		for _, o := range c.spec.Oracles {
+			if o == "."+f.Sel.Name {
+				if id, ok := f.X.(*ast.Ident); ok {
+					if _, isPkg := c.info.Uses[id].(*types.PkgName); isPkg {
+						continue
+					}
+				}
+				return f.Sel.Name
+			}
+		}
+	}
+	return ""
+}
+
+// oracleResults: one fresh input per result of the oracle call x
+func (c *ctx) oracleResults(x *ast.CallExpr, name string) []string {
+	if c.oracleN == nil {
+		c.oracleN = map[string]int{}
+	}
+	c.oracleN[name]++
+	n := c.oracleN[name]
+	var kinds []string
+	switch t := c.info.Types[x].Type.(type) {
+	case *types.Tuple:
+		for i := 0; i < t.Len(); i++ {
+			kinds = append(kinds, kindOf(t.At(i).Type()))
+		}
+	default:
+		kinds = []string{kindOf(t)}
+	}
+	var names []string
+	for i, k := range kinds {
+		if k == "" {
+			bad(x.Pos(), "result %d of oracle %s has unsupported type", i, name)
+		}
+		nm := fmt.Sprintf("%s_%d_%d", name, n, i)
+		c.leafTy[nm] = coqTy(k)
+		c.leaves = append(c.leaves, nm)
+		names = append(names, nm)
+	}
+	return names
+}
+
+// fieldName: Coq name of a field written / read through a pointer parameter
+func (c *ctx) fieldName(e ast.Expr) (string, bool) {
+	if sel, ok := e.(*ast.SelectorExpr); ok && c.rootParam(sel) {
+		return sanitize(exprString(sel)), true
+	}
+	return "", false
+}
+
 func (c *ctx) leaf(e ast.Expr, k string, prefix string) gexp {
 	name := prefix + sanitize(exprString(e))
 	if _, ok := c.leafTy[name]; !ok {
@@ -680,6 +751,34 @@ func (c *ctx) call(x *ast.CallExpr, k string) gexp {
 		}
 		return gexp{wrap(to, a.e), a.g}
 	}
+	if name := c.oracleName(x); name != "" {
+		rs := c.oracleResults(x, name)
+		if len(rs) != 1 {
+			bad(x.Pos(), "multi-value oracle %s used as a single value", name)
+		}
+		return gexp{e: rs[0]}
+	}
+	if sel, ok := x.Fun.(*ast.SelectorExpr); ok && k == "err" {
+		if id, ok := sel.X.(*ast.Ident); ok {
+			if pn, isPkg := c.info.Uses[id].(*types.PkgName); isPkg && (pn.Imported().Path() == "github.com/pkg/errors" || pn.Imported().Path() == "errors" || pn.Imported().Path() == "fmt") &&
+				(sel.Sel.Name == "Errorf" || sel.Sel.Name == "New") && len(x.Args) >= 1 {
+				if lit, ok := x.Args[0].(*ast.BasicLit); ok && lit.Kind == token.STRING {
+					msg := strings.Map(func(r rune) rune {
+						if (r >= 'a' && r <= 'z') || (r >= 'A' && r <= 'Z') || (r >= '0' && r <= '9') {
+							return r
+						}
+						return '_'
+					}, strings.Trim(lit.Value, "\"`"))
+					if len(msg) > 48 {
+						msg = msg[:48]
+					}
+					name := "Err_new_" + msg
+					c.errs[name] = true
+					return gexp{e: name}
+				}
+			}
+		}
+	}
 	switch f := x.Fun.(type) {
 	case *ast.Ident:
 		if f.Name == "len" && len(x.Args) == 1 {
@@ -839,6 +938,7 @@ func noBind(g []string, pos token.Pos) {
 }
 
 func (c *ctx) ret(vals []string) string {
+	vals = append(append([]string{}, vals...), c.outF...)
 	s := vals[0]
 	if len(vals) > 1 {
 		s = "(" + strings.Join(vals, ", ") + ")"
@@ -963,6 +1063,14 @@ func (c *ctx) stmts(list []ast.Stmt) string {
 						}
 					}
 				}
+			}
+		}
+		// common.DealWithErr(err): panics unless err is nil
+		if call, ok := x.X.(*ast.CallExpr); ok && len(call.Args) == 1 {
+			if sel, ok := call.Fun.(*ast.SelectorExpr); ok && sel.Sel.Name == "DealWithErr" {
+				v := c.expr(call.Args[0])
+				c.partial = true
+				return guardWrap(append(v.g, "("+v.e+" =? 0)"), c.stmts(rest))
 			}
 		}
 		bad(x.Pos(), "unsupported expression statement %s", exprString(x.X))
@@ -1110,8 +1218,78 @@ func (c *ctx) declThen(gd *ast.GenDecl, rest []ast.Stmt) string {
 }
 
 func (c *ctx) assign(x *ast.AssignStmt, rest []ast.Stmt) string {
+	if len(x.Lhs) > 1 && len(x.Rhs) == 1 {
+		if call, ok := x.Rhs[0].(*ast.CallExpr); ok {
+			if name := c.oracleName(call); name != "" && (x.Tok == token.DEFINE || x.Tok == token.ASSIGN) {
+				rs := c.oracleResults(call, name)
+				if len(rs) != len(x.Lhs) {
+					bad(x.Pos(), "oracle %s: %d results for %d targets", name, len(rs), len(x.Lhs))
+				}
+				var names []string
+				for i, l := range x.Lhs {
+					if fn, ok := c.fieldName(l); ok {
+						names = append(names, fn)
+						_ = i
+						continue
+					}
+					id, ok := l.(*ast.Ident)
+					if !ok {
+						bad(l.Pos(), "assignment to %s", exprString(l))
+					}
+					if id.Name == "_" {
+						names = append(names, "")
+						continue
+					}
+					var t types.Type
+					if d := c.info.Defs[id]; d != nil {
+						if c.shadows(id) {
+							bad(id.Pos(), "declaration of %s shadows an outer variable (not supported)", id.Name)
+						}
+						t = d.Type()
+					} else {
+						t = c.info.Uses[id].Type()
+					}
+					if kindOf(t) == "" {
+						bad(l.Pos(), "variable %s of unsupported type %s", id.Name, t)
+					}
+					c.locals[id.Name] = t
+					names = append(names, cn(id.Name))
+				}
+				body := c.stmts(rest)
+				for i := len(names) - 1; i >= 0; i-- {
+					if names[i] != "" {
+						body = "(let " + names[i] + " := " + rs[i] + " in " + body + ")"
+					}
+				}
+				return body
+			}
+		}
+	}
 	if len(x.Lhs) != len(x.Rhs) {
 		bad(x.Pos(), "multi-value assignment from a call is not supported")
+	}
+	if len(x.Lhs) == 1 && x.Tok == token.ASSIGN {
+		if fn, ok := c.fieldName(x.Lhs[0]); ok {
+			k := kindOf(c.info.Types[x.Lhs[0]].Type)
+			if k == "" || k == "big" {
+				bad(x.Pos(), "assignment to field %s of unsupported type", fn)
+			}
+			c.leaf(x.Lhs[0], k, "") // its initial value is an input
+			v := c.expr(x.Rhs[0])
+			return guardWrap(v.g, "(let "+fn+" := "+v.e+" in "+c.stmts(rest)+")")
+		}
+	}
+	if len(x.Lhs) == 1 && x.Tok == token.DEFINE && len(c.spec.Oracles) > 0 {
+		if id, ok := x.Lhs[0].(*ast.Ident); ok {
+			if d := c.info.Defs[id]; d != nil && kindOf(d.Type()) == "" {
+				// a local of a type outside the subset: may only be passed on to oracle calls (whose arguments are not translated)
+				if c.opaqueL == nil {
+					c.opaqueL = map[string]bool{}
+				}
+				c.opaqueL[id.Name] = true
+				return c.stmts(rest)
+			}
+		}
 	}
 	type b struct{ name, val string; g []string }
 	var binds []b
@@ -1316,6 +1494,14 @@ func translate(p *packages.Package, f SpecFn, known map[string]*SpecFn, errs map
 			}
 			rts = append(rts, coqTy(k))
 		}
+	}
+	for _, of := range f.OutFields {
+		parts := strings.SplitN(of, ":", 2)
+		nm := sanitize(parts[0])
+		c.leafTy[nm] = coqTy(parts[1])
+		c.leaves = append(c.leaves, nm)
+		c.outF = append(c.outF, nm)
+		rts = append(rts, coqTy(parts[1]))
 	}
 	body := c.stmts(fd.Body.List)
 	if len(f.Opaque) > 0 {
